@@ -229,6 +229,21 @@ func (ai *aliasInfo) callRoots(c *ssa.Call, resIdx int, walk func(ssa.Value), ou
 		}
 		return
 	}
+	// product functions called through a method value / function-typed parameter
+	if ts := ai.p.funcValueTargets(nil, c); len(ts) > 0 {
+		for _, t := range ts {
+			for _, r := range ai.ReturnRoots(t.Fn, resIdx) {
+				if r.Kind == "param" {
+					if r.Idx >= 0 && r.Idx < len(t.Args) {
+						walk(t.Args[r.Idx])
+					}
+				} else {
+					*out = append(*out, r)
+				}
+			}
+		}
+		return
+	}
 	if callee != nil {
 		switch callee.String() {
 		case "slices.Clone", "maps.Clone":
